@@ -34,7 +34,7 @@ func TestZsimC12(t *testing.T) {
 		Run:      c12Run,
 		Horizon:  time.Hour,
 		MaxSteps: 400000,
-		Rule:     "random command histories over typed key pools (string, hash, list, set, sorted set, hyperloglog, bitmap) issued through the wrapper (plain or Ctx form, drawn) to server A and through raw go-redis to twin server B; methods whose go-redis namesake has the same parameter list are driven by reflection, the others by hand adapters; results compared after every command, keyspaces (values + TTLs) after every history; plus a breaker class (connection failures must trip the per-address breaker, redis.Nil and cancelled contexts must not); non-trivial = at least one command changed the keyspace; distinct = distinct event-log fingerprint",
+		Rule:     "random command histories over typed key pools (string, hash, list, set, sorted set, hyperloglog, bitmap) issued through the wrapper (plain or Ctx form, drawn) to server A and through raw go-redis to twin server B; methods whose go-redis namesake has the same parameter list are driven by reflection, the others by hand adapters; results compared after every command (redis.Nil may become a zero value without error in Get/GetSet only), keyspaces (values + TTLs) after every history; plus a breaker class (connection failures must trip the per-address breaker, redis.Nil and cancelled contexts must not); non-trivial = at least one command changed the keyspace; distinct = distinct event-log fingerprint",
 		Real:     []string{"lib/store/redis wrapper methods (reflection-driven), clientmanager, hook", "lib/breaker (per address)", "go-redis", "miniredis x2 (twin)"},
 		Stub:     []string{"network (simulated transport)", "argument generator"},
 	})
